@@ -1134,7 +1134,13 @@ fn run_a(c: &Case) -> Fails {
 
     let loaded = match lib(|| Document::load_mem(&bytes)) {
         Err(p) => { push(&mut f, "no-panic", format!("load_mem of the reference-encrypted file panicked: {}", p)); return f; }
-        Ok(Err(e)) => { push(&mut f, &ob("reference-encrypted-opens-in-lopdf"), format!("load_mem of the reference-encrypted file failed: {}", e)); return f; }
+        Ok(Err(e)) => {
+            // load_mem tries the empty password; "incorrect password" as a LOAD error means it authenticated (else the file would have been left encrypted) and then failed deriving the key
+            if c.r >= 5 && upw.is_empty() && format!("{}", e).contains("password is incorrect") {
+                push(&mut f, &ob("perms"), format!("load_mem of the reference-encrypted file failed: {}: the empty user password passed authentication (Algorithm 11) and was then rejected while deriving the file key, i.e. by Algorithm 13, the validation of /Perms = AES-256-ECB(file key, P | ffffffff | T/F | 'adb' | random)", e));
+            } else { push(&mut f, &ob("reference-encrypted-opens-in-lopdf"), format!("load_mem of the reference-encrypted file failed: {}", e)); }
+            return f;
+        }
         Ok(Ok(d)) => d,
     };
     // a reader that tries the empty password opens the file iff the empty string is the user password (or, R5/6, the owner password)
@@ -1183,7 +1189,12 @@ fn run_a(c: &Case) -> Fails {
             let mut d = enc.clone();
             match lib(|| d.decrypt(pw)) {
                 Err(p) => push(f, "no-panic", format!("decrypt with the {} password panicked: {}", label, p)),
-                Ok(Err(e)) => push(f, &ob("reference-encrypted-opens-in-lopdf"), format!("decrypt with the {} password {:?} failed: {}; {}", label, short(pw), e, diagnose_a(enc, pwb, &re.fkey, c.r))),
+                Ok(Err(e)) => {
+                    // R5/6: the password hash is accepted (Algorithm 11) but the key derivation, which then runs Algorithm 13, says "incorrect password"
+                    let perms_stage = c.r >= 5 && label == "user" && format!("{}", e).contains("password is incorrect") && matches!(lib(|| enc.authenticate_user_password(pw)), Ok(Ok(())));
+                    if perms_stage { push(f, &ob("perms"), format!("decrypt with the user password {:?} failed: {}, although authenticate_user_password accepts it (Algorithms 2.B / 11 agree): the rejection comes from Algorithm 13, the validation of /Perms = AES-256-ECB(file key, P | ffffffff | T/F | 'adb' | 4 random bytes) written by the reference", short(pw), e)); }
+                    else { push(f, &ob("reference-encrypted-opens-in-lopdf"), format!("decrypt with the {} password {:?} failed: {}; {}", label, short(pw), e, diagnose_a(enc, pwb, &re.fkey, c.r))); }
+                }
                 Ok(Ok(())) => {
                     let key_ok = match d.encryption_state.as_ref().map(|s| s.file_encryption_key().to_vec()) {
                         Some(k) if k != re.fkey => { push(f, &ob("file-key"), format!("{} with the {} password {:?}: lopdf's file key is {} ({} bytes), the reference encrypted with {} ({} bytes)",
@@ -1443,7 +1454,10 @@ fn run_b(c: &Case) -> Fails {
             }
         }
         // Algorithm 10 / 13
-        if let Err(e) = alg13(&given_key, &perms, p_used, em_dict.unwrap_or(true)) { push(&mut f, &ob("perms"), format!("{}: Algorithm 10/13: {}", via, e)); }
+        if let Err(e) = alg13(&given_key, &perms, p_used, em_dict.unwrap_or(true)) {
+            let raw = perms.len() == 16 && &perms[9..12] == b"adb" && perms[..4] == (p_used as u32).to_le_bytes() && (perms[8] == b'T' || perms[8] == b'F');
+            push(&mut f, &ob("perms"), format!("{}: Algorithm 10/13: {}{}", via, e, if raw { format!("; the stored /Perms {} is the PLAINTEXT block (P, ffffffff, T/F, 'adb', 4 random bytes): Algorithm 10 step (f), AES-256 ECB encryption with the file key, was not applied", hex(&perms)) } else { String::new() }));
+        }
     }
 
     // --- every string and stream
